@@ -322,6 +322,10 @@ func (fx *Facts) valueFacts(v ssa.Value, want Want, depth int, visiting map[ssa.
 			s.addAll(ef)
 			res = intersect(res, s)
 		}
+		if !res.Bottom {
+			res = res.clone()
+			res.add(fx.atom(v, want)) // the phi itself has the wanted value
+		}
 		return res
 	case *ssa.BinOp:
 		s := emptySet()
